@@ -5,10 +5,12 @@ package kapp
 import (
 	"fmt"
 	"sync"
+	"sync/atomic"
 	"time"
 
 	tmproto "github.com/cometbft/cometbft/proto/tendermint/types"
 	sdk "github.com/cosmos/cosmos-sdk/types"
+	paramtypes "github.com/cosmos/cosmos-sdk/x/params/types"
 
 	"github.com/kava-labs/kava/app"
 
@@ -35,6 +37,26 @@ func NewApp(genesis ...app.GenesisState) (app.TestApp, sdk.Context) {
 	tApp.InitializeFromGenesisStatesWithTime(GenTime, genesis...)
 	ctx := tApp.NewContext(false, tmproto.Header{Height: tApp.LastBlockHeight() + 1, Time: GenTime, ChainID: app.TestChainId})
 	return tApp, ctx
+}
+
+var paramRoute uint64
+
+// SetParams writes a module's parameter set, alternating between two routes that are equivalent in the
+// code as it stands: the module keeper's own SetParams (keeperSet) and the route a governance or committee
+// ParameterChangeProposal takes — straight into the module's x/params subspace, which the module keeper never
+// sees.  Anything a keeper remembers about its parameters outside the store (a memoised copy, a derived table)
+// is therefore exercised against a change it was not told about.
+func SetParams(tApp app.TestApp, ctx sdk.Context, subspace string, ps paramtypes.ParamSet, keeperSet func()) {
+	if atomic.AddUint64(&paramRoute, 1)%2 == 0 {
+		keeperSet()
+		return
+	}
+	ss, ok := tApp.GetParamsKeeper().GetSubspace(subspace)
+	if !ok {
+		keeperSet()
+		return
+	}
+	ss.SetParamSet(ctx, ps)
 }
 
 // Result class of one operation, as baseapp would see it.
